@@ -78,6 +78,8 @@ func numClaim(p map[string]any, k string) (int64, bool) {
 
 // check verifies one token response against the statement.
 func (c *c06) check(desc string, ic issueCtx, tr *world.TokenResponse) {
+	// the injected storage fault belongs to the flow that produced tr, not to the verification of its tokens
+	c.w.Store.Inject = nil
 	w := c.w
 	cl := w.Store.Clients[ic.client]
 	skew := time.Duration(0)
@@ -472,8 +474,31 @@ func RunC06(t *testing.T, spec kernel.Spec) *kernel.Outcome {
 		c := &c06{w: w, o: o, b: w.Net.NewBrowser("b1")}
 		c.ks = rp.NewRemoteKeySet(w.Net.Client("verifier", nil, false), w.Issuer+"/keys")
 		n := 25 + tape.Sub("cfg").Int(25)
+		// two configurations: fault-free, and one where single storage calls fail while tokens are being built. The
+		// oracle is the same in both (whatever token comes out must be complete and verifiable); whether a failed call
+		// must end the request is C10's question, not this one's.
+		faulty := tape.Sub("cfg2").Bool(1, 2)
 		steps(o, tape, n, func(i int, ch *kernel.Chooser) string {
 			c.step = i
+			if faulty && i > 0 && ch.Bool(1, 3) {
+				k, method, kind, fired := ch.Range(1, 12), "", []string{world.FaultError, world.FaultTimeout}[ch.Int(2)], false
+				if ch.Bool(1, 2) {
+					method = ch.Pick("SetUserinfoFromScopes", "SetUserinfoFromRequest", "GetPrivateClaimsFromScopes", "SigningKey", "SignatureAlgorithms", "KeySet",
+						"GetClientByClientID", "AuthRequestByCode", "AuthRequestByID", "CreateAccessToken", "CreateAccessAndRefreshTokens", "TokenRequestByRefreshToken",
+						"GetRefreshTokenInfo", "GetKeyByIDAndClientID", "ValidateJWTProfileScopes", "ValidateTokenExchangeRequest", "CreateTokenExchangeRequest",
+						"SetUserinfoFromTokenExchangeRequest", "GetPrivateClaimsFromTokenExchangeRequest", "GetDeviceAuthorizatonState", "ClientCredentialsTokenRequest")
+				}
+				w.Store.Inject = func(callNo int, m string, rid int) string {
+					if fired || (method == "" && callNo != k) || (method != "" && m != method) {
+						return ""
+					}
+					fired = true
+					o.Fault(kind)
+					o.Probe("storage-fault-while-issuing")
+					return kind
+				}
+				defer func() { w.Store.Inject = nil }()
+			}
 			switch x := ch.Int(20); {
 			case x < 6 || i == 0:
 				return c.codeFlow(ch)
